@@ -8,11 +8,13 @@ from pathlib import PurePosixPath
 
 logging.disable(logging.CRITICAL)
 
-from experimaestro import experiment, RunMode  # noqa: E402
+from experimaestro import experiment, RunMode, setmeta  # noqa: E402
 import vpk_c17 as S  # noqa: E402
 
 
-def value_of(v, objs, rev=False):
+def value_of(v, objs, rev=False, drop=()):
+    """drop: nodes flagged as meta-parameters whose occurrences as list elements are left out (the identifier
+    ignores them: same configuration)"""
     t = v["t"]
     if t == "none":
         return None
@@ -21,11 +23,11 @@ def value_of(v, objs, rev=False):
     if t == "ref":
         return objs[v["n"]]
     if t == "list":
-        return [value_of(x, objs, rev) for x in v["v"]]
+        return [value_of(x, objs, rev, drop) for x in v["v"] if not (x["t"] == "ref" and x["n"] in drop)]
     if t == "dict":
         # rev: the same dict filled in the opposite order (same configuration, same identifier)
         items = list(reversed(v["v"])) if rev else v["v"]
-        return {k: value_of(x, objs, rev) for k, x in items}
+        return {k: value_of(x, objs, rev, drop) for k, x in items}
     raise ValueError(t)
 
 
@@ -58,7 +60,7 @@ def plan_of(nd, second):
     return order, kw
 
 
-def create(i, nd, objs, rev, second):
+def create(i, nd, objs, rev, second, drop=()):
     """Builds configuration i.  The order of the .values dict of a configuration is its ASSIGNMENT order:
     defaults of the arguments not given to the constructor (declaration order), then the keywords in the
     order they are written; a later assignment keeps the position of its key.  The leading `kw` names of
@@ -69,42 +71,45 @@ def create(i, nd, objs, rev, second):
     kwargs, later = {}, []
     for pos, name in enumerate(order):
         if pos < kw and refs_ready(fields[name], objs):
-            kwargs[name] = value_of(fields[name], objs, rev)
+            kwargs[name] = value_of(fields[name], objs, rev, drop)
         else:
             later.append(name)
     objs[i] = S.CLASSES[nd["cls"]](**kwargs)
+    if nd.get("meta"):
+        setmeta(objs[i], True)
     return later
 
 
-def finish(i, nd, later, objs, rev, repre=False):
+def finish(i, nd, later, objs, rev, repre=False, drop=()):
     o = objs[i]
     fields = dict((k, v) for k, v in nd["fields"])
     for name in later:
-        setattr(o, name, value_of(fields[name], objs, rev))
+        setattr(o, name, value_of(fields[name], objs, rev, drop))
     # repre: the same pre-tasks added in another order (same configuration, same identifier)
     pre = nd.get("pre2", nd["pre"]) if repre else nd["pre"]
     if pre:
         o.add_pretasks(*[objs[j] for j in pre])
 
 
-def build_and_submit(case, rev=False, second=False, repre=False):
+def build_and_submit(case, rev=False, second=False, repre=False, dropmeta=False):
     nodes = case["nodes"]
     objs = {}
+    drop = {i for i, nd in enumerate(nodes) if nd.get("meta")} if dropmeta else ()
     # configurations sealed by earlier submissions (references go to higher indices: built first)
     todo = {}
     for i in reversed(range(len(nodes))):
         if nodes[i]["sealed"] and nodes[i]["cls"] != "Out":
-            todo[i] = create(i, nodes[i], objs, rev, second)
+            todo[i] = create(i, nodes[i], objs, rev, second, drop)
     for i, later in todo.items():
-        finish(i, nodes[i], later, objs, rev, repre)
+        finish(i, nodes[i], later, objs, rev, repre, drop)
     for pid, oid in case["producers"]:
         objs[oid] = objs[pid].submit(run_mode=RunMode.DRY_RUN)
     todo = {}
     for i in reversed(range(len(nodes))):
         if not nodes[i]["sealed"] and nodes[i]["cls"] != "Out":
-            todo[i] = create(i, nodes[i], objs, rev, second)
+            todo[i] = create(i, nodes[i], objs, rev, second, drop)
     for i, later in todo.items():
-        finish(i, nodes[i], later, objs, rev, repre)
+        finish(i, nodes[i], later, objs, rev, repre, drop)
     sealed_before = [bool(objs[i].__xpm__._sealed) for i in range(len(nodes))]
     # the input as it really is: key order of the .values dict of every configuration
     vorder = [list(objs[i].__xpm__.values.keys()) for i in range(len(nodes))]
@@ -162,6 +167,19 @@ def probes():
 
     r1, r2 = pre_run(False), pre_run(True)
     out = dict(pretask_order=dict(first=r1, second=r2), sorts_pretasks=(r1 == r2))
+    # flagged list elements: numbered apart (fixes/C17-4.diff) or counted like the others?
+    m, a, t = setmeta(S.Leaf(v=1), True), S.Leaf(v=2), S.T(v=4)
+    t.l = [m, a]
+    t.submit(run_mode=RunMode.DRY_RUN)
+    out["meta_list"] = dict(jobdir=canon_path(t.__xpm__.job.path), unflagged=canon_path(a.p), flagged=canon_path(m.p))
+    out["meta_apart"] = canon_path(a.p)["parts"][-2] == "0"
+    # one configuration given to two tasks: sealed by the first submit, its paths stay in the first job
+    sub = S.Leaf(v=7)
+    t1, t2 = S.T(v=5, c=sub), S.T(v=6, c=sub)
+    t1.submit(run_mode=RunMode.DRY_RUN)
+    t2.submit(run_mode=RunMode.DRY_RUN)
+    out["shared"] = dict(first_job=canon_path(t1.__xpm__.job.path), second_job=canon_path(t2.__xpm__.job.path),
+                         path_in_second=canon_path(t2.c.p))
     try:
         t = TDefault()
         t.submit(run_mode=RunMode.DRY_RUN)
@@ -179,7 +197,7 @@ def run_case(case):
         # the opposite order, or with its parameters assigned in another order (order2 / kw2)
         # (order2 / kw2), or with its pre-tasks added in another order (pre2)
         b = build_and_submit(case, rev=bool(case.get("reorder")), second=bool(case.get("reassign")),
-                             repre=bool(case.get("repre")))
+                             repre=bool(case.get("repre")), dropmeta=bool(case.get("dropmeta")))
         return dict(first=a, second=b)
     except Exception as e:  # noqa
         import traceback
